@@ -599,3 +599,26 @@ Proof.
   intros Hv Hk Hb. unfold aes_decrypt_block, aes_encrypt_block.
   split; [apply aes_inv_cipher_cipher | apply aes_cipher_block]; assumption.
 Qed.
+
+(* ---- the S-box tables are the FIPS-197 5.1.1 formula (so the tables are not trusted) *)
+Lemma aes_ginv_spec x : x < 256 -> (x <> 0 -> aes_gmul x (aess_ginv x) = 1) /\ aess_ginv 0 = 0.
+Proof.
+  intros Hx. split; [|vm_compute; reflexivity].
+  intros Hn.
+  assert (H : ((x =? 0) || (aes_gmul x (aess_ginv x) =? 1)) = true).
+  { apply (aes_byte_forall (fun x => (x =? 0) || (aes_gmul x (aess_ginv x) =? 1))); [vm_compute; reflexivity | exact Hx]. }
+  apply orb_true_iff in H. destruct H as [H | H]; [apply N.eqb_eq in H; contradiction | apply N.eqb_eq, H].
+Qed.
+
+Lemma aes_sbox_is_fips_formula x i :
+  x < 256 -> i < 8 -> N.testbit (aes_sub x) i = aess_affine_bit (aess_ginv x) i.
+Proof.
+  intros Hx Hi.
+  assert (H : forallb (fun i => Bool.eqb (N.testbit (aes_sub x) i) (aess_affine_bit (aess_ginv x) i))
+                      [0; 1; 2; 3; 4; 5; 6; 7] = true).
+  { apply (aes_byte_forall (fun x => forallb (fun i => Bool.eqb (N.testbit (aes_sub x) i) (aess_affine_bit (aess_ginv x) i))
+                                             [0; 1; 2; 3; 4; 5; 6; 7])); [vm_compute; reflexivity | exact Hx]. }
+  rewrite forallb_forall in H. apply Bool.eqb_prop, H.
+  assert (Hc : i = 0 \/ i = 1 \/ i = 2 \/ i = 3 \/ i = 4 \/ i = 5 \/ i = 6 \/ i = 7) by lia.
+  repeat (destruct Hc as [-> | Hc]; [simpl; tauto|]). subst i. simpl; tauto.
+Qed.
